@@ -365,13 +365,13 @@ func ruleStartChunkEffects(c *Ctx, r *Report, t *chunkTables, prefix string) {
 			for _, ins := range b.Instrs {
 				if st, ok := ins.(*ssa.Store); ok {
 					if fa, ok := st.Addr.(*ssa.FieldAddr); ok {
-						if f := fieldOfAddr(fa); f != nil && !allowed[f.Name()] {
-							extra = append(extra, f.Name())
+						if f := fieldOfAddr(fa); f != nil && !allowed[refNameOf(f)] {
+							extra = append(extra, refNameOf(f))
 						}
 					}
 				}
 				if call, ok := ins.(*ssa.Call); ok {
-					if f := call.Call.StaticCallee(); f != nil && c.InModule(f) && f.Name() != "newRangeDecoder" && f.Name() != "pos" {
+					if f := call.Call.StaticCallee(); f != nil && c.InModule(f) && refFuncName(f) != "newRangeDecoder" && refFuncName(f) != "pos" {
 						extra = append(extra, "call "+f.Name())
 					}
 				}
@@ -410,7 +410,7 @@ func ruleStartChunkEffects(c *Ctx, r *Report, t *chunkTables, prefix string) {
 		}
 		// the LimitedReader's N is the size parameter
 		ok := false
-		if f.Name() != "newUncompressedReader" && f.Name() != "Reopen" {
+		if refFuncName(f) != "newUncompressedReader" && refFuncName(f) != "Reopen" {
 			// folded into its caller (startChunk): the literal's N is checked there (SEQ-STARTCHUNK
 			// raw kinds: size = uncompressed+1); here: a literal with an N exists
 			for _, b := range theCtx.GB(f) {
@@ -431,7 +431,7 @@ func ruleStartChunkEffects(c *Ctx, r *Report, t *chunkTables, prefix string) {
 				}
 				if fa, isFA := st.Addr.(*ssa.FieldAddr); isFA {
 					if fv := fieldOfAddr(fa); fv != nil && fv.Name() == "N" {
-						if p, isP := st.Val.(*ssa.Parameter); isP && p.Name() == "size" {
+						if p, isP := st.Val.(*ssa.Parameter); isP && isRefParam(p, "size") {
 							ok = true
 						}
 					}
@@ -947,7 +947,7 @@ func ruleWriter2(c *Ctx, r *Report, t *chunkTables, prefix string) {
 						continue
 					}
 					if fa, isFA := st.Addr.(*ssa.FieldAddr); isFA {
-						if fv := fieldOfAddr(fa); fv != nil && fv.Name() == "ctype" && chT != nil && types.Identical(fa.X.Type().(*types.Pointer).Elem(), chT) {
+						if fv := fieldOfAddr(fa); fv != nil && refNameOf(fv) == "ctype" && chT != nil && types.Identical(fa.X.Type().(*types.Pointer).Elem(), chT) {
 							if isFieldLoadOf(st.Val, fCtype) {
 								ok = true
 							}
@@ -1001,7 +1001,7 @@ func urLiteral(al *ssa.Alloc) (rv, nv, dv ssa.Value) {
 	if !ok {
 		return
 	}
-	if n, isN := pt.Elem().(*types.Named); !isN || n.Obj().Name() != "uncompressedReader" {
+	if n, isN := pt.Elem().(*types.Named); !isN || refNameOf(n.Obj()) != "uncompressedReader" {
 		return
 	}
 	var scanLR func(base ssa.Value)
